@@ -36,6 +36,7 @@ pub mod c19_more;
 pub mod c01;
 pub mod c02;
 pub mod c03;
+pub mod c03_trunc;
 pub mod c04;
 pub mod c04_span;
 pub mod c04_join;
